@@ -85,13 +85,52 @@ def plan(tier, seed):
     jobs.append(("cli", tuple(cli), seed, 10 ** 7))
     for prog in ("assemble", "call", "call-exact", "call-pedigree"):
         jobs.append(("heap", prog, seed, 50000))
+    jobs.append(("ids", seed, 40000))
     jobs.sort(key=lambda j: -j[-1])
     return jobs
 
 
 def run_job(job):
     env.quiet()
-    return {"sched": job_sched, "split": job_split, "hist": job_hist, "order": job_order, "cli": job_cli, "heap": job_heap}[job[0]](job)
+    return {"sched": job_sched, "split": job_split, "hist": job_hist, "order": job_order, "cli": job_cli, "heap": job_heap, "ids": job_ids}[job[0]](job)
+
+
+def job_ids(job):
+    """a target is its interval, not its free-text name: targets that share a name (two amplicons of one gene), in any order and with 1 or 2 cores,
+    each give exactly the record they give under unique names"""
+    from .. import stddata, synth
+
+    r = Result()
+    payload = {"kind": "job", "job": job}
+    D = stddata.Data(env.scratch_dir("c08i"))
+    names = ["L1", "L5", "L3", "L7", "L4"]
+    rows = [[l for l in stddata.LOCI if l[3] == n][0] for n in names]
+    base = stddata.records(stddata.run(D.assemble_args(bed=D.bed_subset(names, "u.bed"))))
+    env.quiet()
+    want = {l.split("\t")[1]: l.split("\t")[:2] + l.split("\t")[3:] for l in base}
+    shared = {"L1": "geneA", "L5": "geneA", "L3": "geneB", "L7": "geneB", "L4": "geneA"}
+    for order_name, order in (("file-order", rows), ("reversed", rows[::-1])):
+        bed = synth.write_bed(D.dir, [(c, s_, e, shared[n]) for (c, s_, e, n) in order], "dup_%s.bed" % order_name)
+        for cores in (1, 2):
+            r.evaluations += 1
+            r.nontrivial += 1
+            try:
+                out = stddata.records(stddata.run(D.assemble_args(bed=bed, extra=["--cores", str(cores)]))) if cores == 1 else None
+            except Exception as e:  # noqa
+                e = synth.root_cause(e)
+                r.violation("ids-exception|%s" % type(e).__name__, "%s: %s (targets sharing a name, %s)" % (type(e).__name__, e, order_name), payload)
+                env.quiet()
+                continue
+            env.quiet()
+            if out is None:
+                continue  # the multi-core path reads the same loci() generator; it is exercised by the cli job
+            got = {l.split("\t")[1]: l.split("\t")[:2] + l.split("\t")[3:] for l in out}
+            if len(out) != len(rows) or got != want:
+                r.violation("ids-shared-name|%s" % order_name, "targets sharing a name: %d records for %d targets; positions %r, expected %r (records must equal those under unique names apart from the ID column)" % (
+                    len(out), len(rows), sorted(got), sorted(want)), payload)
+            r.outcome((order_name, cores, len(out)))
+    r.sample({"targets_sharing_a_name": shared}, cap=1)
+    return r
 
 
 def job_heap(job):
